@@ -1,4 +1,6 @@
 import EtVerif.Props.C18
+import EtVerif.Props.TrC18
+import EtVerif.Props.TrC01
 #print axioms EtVerif.C18.runs_spec
 #print axioms EtVerif.C18.ft_empty
 #print axioms EtVerif.C18.ft_length
@@ -17,3 +19,14 @@ import EtVerif.Props.C18
 #print axioms EtVerif.C18.ft_ranking_top
 #print axioms EtVerif.C18.ft_ranking_dominates
 #print axioms EtVerif.C18.ft_ranking_all
+-- refinement of the translated Go code (Gen/Translated.lean, regenerated from /repo) to the model
+#print axioms EtVerif.TrC18.newChecker_refines
+#print axioms EtVerif.TrC18.update_refines
+#print axioms EtVerif.TrC18.reached_refines
+#print axioms EtVerif.TrC18.stats_refines
+-- refinement of the translated basic.Compute (Gen/Translated.lean, regenerated from /repo) to the model
+#print axioms EtVerif.TrC01.compute_refines_ok_partial
+#print axioms EtVerif.TrC01.compute_refines_err_partial
+#print axioms EtVerif.TrC01.compute_refuses_validation
+#print axioms EtVerif.TrC01.compute_schedule
+#print axioms EtVerif.TrC01.compute_default_schedule
